@@ -50,6 +50,9 @@ def adequacy(ctx, prop: str):
     matrix = json.load(open(mpath)) if os.path.exists(mpath) else {}
     for seed, row in sorted(matrix.items()):
         patch = os.path.join(VERIF, "seeded", seed, "patch.diff")
+        mp = os.path.join(VERIF, "seeded", seed, "meta.json")
+        if os.path.exists(mp) and "retired" in json.load(open(mp)):
+            continue
         if row.get(prop, {}).get("rc") == 1 and os.path.exists(patch):
             jobs.append(("seeded", seed, prop, patch))
     res = {"caught": [], "failed_closed": [], "silent_benign": [], "stale": [], "lost": [], "false_alarm": []}
